@@ -28,8 +28,12 @@ class Ops (α : Type) where
   sincos : α → α × α
   atan2 : α → α → α
   pi : α
-  center : α → α → α → α → α → Bool → Bool → α → α → α × α × α × α
-  angleBetween : α → α → α → Bool
+  /-- primitives of the arc code: `math.Mod`, `math.Acos`, `math.Abs`, the constant `Epsilon`, `<=` -/
+  fmod : α → α → α
+  acos : α → α
+  abs : α → α
+  eps : α
+  le : α → α → Bool
 
 inductive Cmd (α : Type) where
   | M (p : Pt α)
@@ -60,8 +64,67 @@ def Cmd.endPt : Cmd α → Pt α
 def Cmd.firstPt : Cmd α → Pt α
   | .M p => p | .L p => p | .Z p => p | .Q cp _ => cp | .C cp1 _ _ => cp1 | .A rx ry _ _ _ _ => ⟨rx, ry⟩
 
+/-- util.go `angleNorm`: the angle in [0, 2π) -/
+def angleNorm (theta : α) : α :=
+  let theta := fmod theta (2 * pi)
+  if theta < 0 then theta + 2 * pi else theta
+
+/-- util.go `angleBetween`: theta in [lower, upper] (either order), with Epsilon slack at both ends -/
+def angleBetween (theta lower upper : α) : Bool :=
+  let lu := if upper < lower then (upper, lower) else (lower, upper)
+  let theta := angleNorm (theta - lu.1 + eps)
+  let upper := angleNorm (lu.2 - lu.1 + 2 * eps)
+  le theta upper
+
+/-- path_util.go `ellipseToCenter`: centre and start/end angles of an SVG arc (all branches: coincident
+end points, the half-circle shortcut, radii correction, the `sq <= Epsilon` clamp, sign choices) -/
+def ellipseToCenter (x1 y1 rx ry phi : α) (large sweep : Bool) (x2 y2 : α) : α × α × α × α :=
+  if equal x1 x2 && equal y1 y2 then (x1, y1, 0, 0)
+  else if equal (abs (x2 - x1)) (2 * rx) && equal y1 y2 && equal phi 0 then
+    let cx := x1 + (x2 - x1) / 2
+    let cy := y1
+    let theta := if x1 < x2 then pi else 0
+    let delta := if !sweep then -pi else pi
+    (cx, cy, theta, theta + delta)
+  else
+    let sc := sincos phi
+    let sinphi := sc.1
+    let cosphi := sc.2
+    let x1p := cosphi * (x1 - x2) / 2 + sinphi * (y1 - y2) / 2
+    let y1p := -sinphi * (x1 - x2) / 2 + cosphi * (y1 - y2) / 2
+    let radiiCheck := x1p * x1p / rx / rx + y1p * y1p / ry / ry
+    let rr := if 1 < radiiCheck then
+        let radiiScale := sqrt radiiCheck
+        (rx * radiiScale, ry * radiiScale)
+      else (rx, ry)
+    let rx := rr.1
+    let ry := rr.2
+    let sq := (rx * rx * ry * ry - rx * rx * y1p * y1p - ry * ry * x1p * x1p) / (rx * rx * y1p * y1p + ry * ry * x1p * x1p)
+    let sq := if le sq eps then 0 else sq
+    let coef := sqrt sq
+    let coef := if large == sweep then -coef else coef
+    let cxp := coef * rx * y1p / ry
+    let cyp := coef * -ry * x1p / rx
+    let cx := cosphi * cxp - sinphi * cyp + (x1 + x2) / 2
+    let cy := sinphi * cxp + cosphi * cyp + (y1 + y2) / 2
+    let ux := (x1p - cxp) / rx
+    let uy := (y1p - cyp) / ry
+    let vx := -(x1p + cxp) / rx
+    let vy := -(y1p + cyp) / ry
+    let theta := acos (ux / sqrt (ux * ux + uy * uy))
+    let theta := if uy < 0 then -theta else theta
+    let theta := angleNorm theta
+    let deltaAcos := (ux * vx + uy * vy) / sqrt ((ux * ux + uy * uy) * (vx * vx + vy * vy))
+    let deltaAcos := mn 1 (mx (-1) deltaAcos)
+    let delta := acos deltaAcos
+    let delta := if ux * vy - uy * vx < 0 then -delta else delta
+    let delta := if !sweep && 0 < delta then delta - 2 * pi
+      else if sweep && delta < 0 then delta + 2 * pi else delta
+    (cx, cy, theta, theta + delta)
+
 /-- `FastBounds`, one command. `inner` is the operation applied to `(cp2, end)` in the *upper*
-bounds of the CubeTo case: the present source has `math.Min` there (path.go, FastBounds, CubeToCmd). -/
+bounds of the CubeTo case: `math.Max` since the fix of finding C08-fastbounds-cubic-minmax (the pinned
+source had `math.Min` there; `fastStepG mn` is that historical variant, used by a mutant self-test). -/
 def fastStepG (inner : α → α → α) (s : St α) : Cmd α → St α
   | .M p | .L p | .Z p =>
     ⟨p, mn s.xmin p.x, mx s.xmax p.x, mn s.ymin p.y, mx s.ymax p.y⟩
@@ -72,13 +135,13 @@ def fastStepG (inner : α → α → α) (s : St α) : Cmd α → St α
     ⟨p, mn s.xmin (mn cp1.x (mn cp2.x p.x)), mx s.xmax (mx cp1.x (inner cp2.x p.x)),
         mn s.ymin (mn cp1.y (mn cp2.y p.y)), mx s.ymax (mx cp1.y (inner cp2.y p.y))⟩
   | .A rx ry phi large sweep p =>
-    let cc := center s.start.x s.start.y rx ry phi large sweep p.x p.y
+    let cc := ellipseToCenter s.start.x s.start.y rx ry phi large sweep p.x p.y
     let cx := cc.1
     let cy := cc.2.1
     let r := mx rx ry
     ⟨p, mn s.xmin (cx - r), mx s.xmax (cx + r), mn s.ymin (cy - r), mx s.ymax (cy + r)⟩
 
-/-- the source as it is: `math.Max(xmax, math.Max(cp1.X, math.Min(cp2.X, end.X)))` -/
+/-- the source as it is: `math.Max(xmax, math.Max(cp1.X, math.Max(cp2.X, end.X)))` -/
 def fastStep : St α → Cmd α → St α := fastStepG mx
 /-- the corrected formula (`math.Max` in the inner position) -/
 def fastStepFixed : St α → Cmd α → St α := fastStepG mx
@@ -123,7 +186,7 @@ def cubeAxis (a0 a1 a2 a3 : α) (val : α → α) (lo hi : α) : α × α :=
   let ts := solveQuadratic a b c
   cand val ts.2 (cand val ts.1 (mn lo a3, mx hi a3))
 
-/-- `Bounds`, one command. `swapTop = false` is the present source, whose ArcTo case computes
+/-- `Bounds`, one command. `swapTop = false` is the pinned (pre-fix) source, whose ArcTo case computed
 `thetaTop := math.Atan2(rx*cosphi, ry*sinphi)`; `true` is the corrected `Atan2(ry*cosphi, rx*sinphi)`. -/
 def boundsStepG (swapTop : Bool) (s : St α) : Cmd α → St α
   | .M p | .L p | .Z p =>
@@ -137,7 +200,7 @@ def boundsStepG (swapTop : Bool) (s : St α) : Cmd α → St α
     let ys := cubeAxis s.start.y cp1.y cp2.y p.y (fun t => (cubePos s.start cp1 cp2 p t).y) s.ymin s.ymax
     ⟨p, xs.1, xs.2, ys.1, ys.2⟩
   | .A rx ry phi large sweep p =>
-    let cc := center s.start.x s.start.y rx ry phi large sweep p.x p.y
+    let cc := ellipseToCenter s.start.x s.start.y rx ry phi large sweep p.x p.y
     let cx := cc.1
     let cy := cc.2.1
     let theta0 := cc.2.2.1
@@ -157,7 +220,7 @@ def boundsStepG (swapTop : Bool) (s : St α) : Cmd α → St α
     let ymax := if angleBetween thetaTop theta0 theta1 then mx s.ymax (cy + dy) else s.ymax
     ⟨p, mn xmin p.x, mx xmax p.x, mn ymin p.y, mx ymax p.y⟩
 
-/-- the source as it is -/
+/-- the source as it is (after the fix of finding C08-bounds-arc-thetatop) -/
 def boundsStep : St α → Cmd α → St α := boundsStepG true
 
 def St.init (p : Pt α) : St α := ⟨p, p.x, p.x, p.y, p.y⟩
@@ -173,72 +236,59 @@ def fastBounds : List (Cmd α) → Rct α := run fastStep
 def fastBoundsFixed : List (Cmd α) → Rct α := run fastStepFixed
 def bounds : List (Cmd α) → Rct α := run boundsStep
 
+/-! ## the property's verdict as an executable specification (`V`/`VE` lines: the harness sends what it
+observed — the box of its independent dense sampling, the two rectangles the real code returned, the
+derived tolerances — and this function decides) -/
+
+inductive Verdict where
+  | ok
+  | notContaining (axis : Nat)
+  | notTight (axis : Nat)
+  | fastNotContaining (axis : Nat)
+deriving Repr, DecidableEq
+
+/-- one axis: sampled range `[slo,shi]`, Bounds' range `[blo,bhi]`, FastBounds' range `[flo,fhi]` -/
+def axisContains (tolC slo shi blo bhi : α) : Bool := le blo (slo + tolC) && le (shi - tolC) bhi
+def axisTight (tolT slo shi blo bhi : α) : Bool := le (abs (blo - slo)) tolT && le (abs (bhi - shi)) tolT
+def axisFast (tolC slo shi blo bhi flo fhi : α) : Bool := le flo (mn blo slo + tolC) && le (mx bhi shi - tolC) fhi
+
+/-- Bounds contains every sample within `tolC`, each of its sides is within `tolT` of the sampled
+extreme, FastBounds contains Bounds and the samples within `tolC`. -/
+def verdict (tolC tolT : α) (s b f : Rct α) : Verdict :=
+  if !axisContains tolC s.x0 s.x1 b.x0 b.x1 then .notContaining 0
+  else if !axisTight tolT s.x0 s.x1 b.x0 b.x1 then .notTight 0
+  else if !axisContains tolC s.y0 s.y1 b.y0 b.y1 then .notContaining 1
+  else if !axisTight tolT s.y0 s.y1 b.y0 b.y1 then .notTight 1
+  else if !axisFast tolC s.x0 s.x1 b.x0 b.x1 f.x0 f.x1 then .fastNotContaining 0
+  else if !axisFast tolC s.y0 s.y1 b.y0 b.y1 f.y0 f.y1 then .fastNotContaining 1
+  else .ok
+
+/-- equivariance verdict: two rectangles agree within `tol` on every side -/
+def rectNear (tol : α) (a b : Rct α) : Bool :=
+  le (abs (a.x0 - b.x0)) tol && le (abs (a.y0 - b.y0)) tol && le (abs (a.x1 - b.x1)) tol && le (abs (a.y1 - b.y1)) tol
+
 end
 
-/-! ## Float-only parts: arcs (transcendental; compared with tolerance) and raw-data decoding -/
+/-! ## Float-only parts: `math.Mod` and raw-data decoding -/
 
-def eps : Float := 1e-10
-
-def equalF (a b : Float) : Bool := if a < b then b - a ≤ eps else a - b ≤ eps
-
-/-- `math.Mod` for the magnitudes that occur here (|x| a few multiples of y): exact when the
-quotient truncates to 0, otherwise accurate to an ulp of x. -/
+/-- `math.Mod`, exact: repeatedly subtract the largest `y·2^k ≤ r` (each subtraction is exact by
+Sterbenz' lemma, scaling by 2 is exact), result carries the sign of `x` — the algorithm of Go's
+math.Mod, so `angleNorm`/`angleBetween` are bit-identical to the library on identical inputs. -/
 def fmodF (x y : Float) : Float :=
-  let q := x / y
-  let qi := if q ≥ 0 then q.floor else q.ceil
-  if qi == 0 then x else x - qi * y
-
-def angleNormF (theta : Float) : Float :=
-  let theta := fmodF theta (2.0 * goPi)
-  if theta < 0.0 then theta + 2.0 * goPi else theta
-
-def angleBetweenF (theta lower upper : Float) : Bool :=
-  let (lower, upper) := if upper < lower then (upper, lower) else (lower, upper)
-  let theta := angleNormF (theta - lower + eps)
-  let upper := angleNormF (upper - lower + 2.0 * eps)
-  theta ≤ upper
-
-/-- path_util.go `ellipseToCenter` -/
-def ellipseToCenterF (x1 y1 rx ry phi : Float) (large sweep : Bool) (x2 y2 : Float) : Float × Float × Float × Float :=
-  if equalF x1 x2 && equalF y1 y2 then (x1, y1, 0.0, 0.0)
-  else if equalF (x2 - x1).abs rx && equalF y1 y2 && equalF phi 0.0 then
-    let cx := x1 + (x2 - x1) / 2.0
-    let cy := y1
-    let theta := if x1 < x2 then goPi else 0.0
-    let delta := if !sweep then -goPi else goPi
-    (cx, cy, theta, theta + delta)
+  if y == 0 || x.isNaN || y.isNaN || x.isInf then 0.0 / 0.0
+  else if y.isInf then x
   else
-    let sinphi := Float.sin phi
-    let cosphi := Float.cos phi
-    let x1p := cosphi * (x1 - x2) / 2.0 + sinphi * (y1 - y2) / 2.0
-    let y1p := -sinphi * (x1 - x2) / 2.0 + cosphi * (y1 - y2) / 2.0
-    let radiiCheck := x1p * x1p / rx / rx + y1p * y1p / ry / ry
-    let (rx, ry) := if 1.0 < radiiCheck then
-        let radiiScale := Float.sqrt radiiCheck
-        (rx * radiiScale, ry * radiiScale)
-      else (rx, ry)
-    let sq := (rx * rx * ry * ry - rx * rx * y1p * y1p - ry * ry * x1p * x1p) / (rx * rx * y1p * y1p + ry * ry * x1p * x1p)
-    let sq := if sq ≤ eps then 0.0 else sq
-    let coef := Float.sqrt sq
-    let coef := if large == sweep then -coef else coef
-    let cxp := coef * rx * y1p / ry
-    let cyp := coef * -ry * x1p / rx
-    let cx := cosphi * cxp - sinphi * cyp + (x1 + x2) / 2.0
-    let cy := sinphi * cxp + cosphi * cyp + (y1 + y2) / 2.0
-    let ux := (x1p - cxp) / rx
-    let uy := (y1p - cyp) / ry
-    let vx := -(x1p + cxp) / rx
-    let vy := -(y1p + cyp) / ry
-    let theta := Float.acos (ux / Float.sqrt (ux * ux + uy * uy))
-    let theta := if uy < 0.0 then -theta else theta
-    let theta := angleNormF theta
-    let deltaAcos := (ux * vx + uy * vy) / Float.sqrt ((ux * ux + uy * uy) * (vx * vx + vy * vy))
-    let deltaAcos := goMin 1.0 (goMax (-1.0) deltaAcos)
-    let delta := Float.acos deltaAcos
-    let delta := if ux * vy - uy * vx < 0.0 then -delta else delta
-    let delta := if !sweep && 0.0 < delta then delta - 2.0 * goPi
-      else if sweep && delta < 0.0 then delta + 2.0 * goPi else delta
-    (cx, cy, theta, theta + delta)
+    let ay := y.abs
+    let rec grow (fuel : Nat) (t r : Float) : Float :=
+      match fuel with
+      | 0 => t
+      | fuel + 1 => if t * 2 ≤ r then grow fuel (t * 2) r else t
+    let rec go (fuel : Nat) (r : Float) : Float :=
+      match fuel with
+      | 0 => r
+      | fuel + 1 => if r ≥ ay then go fuel (r - grow 2200 ay r) else r
+    let r := go 2200 x.abs
+    if x < 0 then -r else r
 
 /-- decode the raw command array of a `Path` (framing as in path.go: cmd, args…, cmd) -/
 partial def decode (d : Array Float) (i : Nat) (acc : List (Cmd Float)) : Option (List (Cmd Float)) :=
